@@ -300,10 +300,10 @@ def check_general(case, out):
 
 
 FACETS = [
-    Facet("polyline", lambda tier: polyline_cases(False), check_polyline, quick=900, thorough=15000,
+    Facet("polyline", lambda tier: polyline_cases(False), check_polyline, quick=1800, thorough=15000,
           rule="guaranteed class: exact nearest point on polylines"),
-    Facet("polyline-degenerate", lambda tier: polyline_cases(True), check_polyline, quick=150, thorough=2000,
+    Facet("polyline-degenerate", lambda tier: polyline_cases(True), check_polyline, quick=600, thorough=2000,
           rule="polylines with two coincident consecutive control points"),
-    Facet("general", lambda tier: general_cases(), check_general, quick=300, thorough=5000,
+    Facet("general", lambda tier: general_cases(), check_general, quick=600, thorough=5000,
           rule="Bezier / spline / arc: structural claims, stationarity, on-curve points"),
 ]
